@@ -18,6 +18,7 @@ import vlib
 
 PID = "C15"
 ACTIONS = ("TraceInit", "TraceConforms")
+DUP = ("dup_global", "dup_import", "dup_from_import")
 
 
 def signature(rec, why):
@@ -44,7 +45,7 @@ def run_tlc(wd, name, trace, universe, workers=None, timeout=2400):
     return r, rejects
 
 
-def validate(wd, name, trace, fullpath, universe, ev, verdicts, workers=None):
+def validate(wd, name, trace, fullpath, universe, ev, verdicts, workers=None, guards=True):
     recs = vlib.read_ndjson(trace)
     fulls = vlib.read_ndjson(fullpath)
     if len(recs) != len(fulls) or not recs:
@@ -57,7 +58,7 @@ def validate(wd, name, trace, fullpath, universe, ev, verdicts, workers=None):
         ex = fulls[base_bad[0]["rec"] - 1]
         vlib.tool_error("vacuity: %d of %d base programs of %s were rejected, e.g. %s: %s" % (
             len(base_bad), len(recs), name, json.dumps(ex["case"]), ex["base_error"][:300]))
-    for act in ACTIONS:
+    for act in ACTIONS if guards else ():
         if r.coverage.get(act, (0, 0))[1] == 0:
             vlib.tool_error("vacuity: trace action %s never taken in %s" % (act, name))
     if r.coverage.get("TraceInit", (0, 0))[0] != len(recs):
@@ -66,10 +67,10 @@ def validate(wd, name, trace, fullpath, universe, ev, verdicts, workers=None):
         rec, full = recs[rej["rec"] - 1], fulls[rej["rec"] - 1]
         sig = signature(rec, rej["why"])
         what = "%s planted at %s:%d (%s, after %s) but the first error is reported %s" % (
-            rec["kind"], rej["expected_file"] if rec["kind"] not in ("dup_global", "dup_import") else rec["path"],
+            rec["kind"], rej["expected_file"] if rec["kind"] not in DUP else rec["path"],
             line_of(rec["text"], rec["marker"]), rec["pos"], rec["shape"],
             ("at %s:%d" % (rec["efile"], rec["eline"])) if rec["res"] == "err" else ("as " + rej["why"]))
-        if rec["kind"] in ("dup_global", "dup_import"):
+        if rec["kind"] in DUP:
             what += " (the later of the two definition sites is %s:%d)" % (rej["expected_file"], rej["expected_line"])
         verdicts.add(sig, what, {"case": full["case"], "files": full["files"], "path": full["path"],
                                  "planted_line": line_of(rec["text"], rec["marker"]),
@@ -124,7 +125,7 @@ def control_stub(wd, bad_sigs):
     vlib.write_ndjson(path, recs)
     _, rejects = run_tlc(wd, "neg-f1", path, "part")
     got = {x["rec"] for x in rejects}
-    ml = {i + 1 for i, x in enumerate(recs) if x["shape"] != "none" and x["kind"] not in ("dup_global", "dup_import")}
+    ml = {i + 1 for i, x in enumerate(recs) if x["shape"] != "none" and x["kind"] not in DUP}
     plain = {i + 1 for i, x in enumerate(recs) if x["shape"] == "none" and signature(x, "earlier") not in bad_sigs}
     if not ml or not ml <= got or (plain & got):
         vlib.tool_error("negative control accepted: stub tokenizer losing newlines in strings: %d of %d multi-line cases "
@@ -145,10 +146,15 @@ def run(ctx):
         json.dump(rp["case"], open(cf, "w"))
         p = vlib.harness("c15", ["one", cf, tf])
         open(ff, "w").write(p.stdout)
-        recs, _, _ = validate(wd, "replay", tf, ff, "free", ev, verdicts, workers=1)
+        recs, _, _ = validate(wd, "replay", tf, ff, "free", ev, verdicts, workers=1, guards=False)
         ev.set(samples=[recs[0]["kind"] + " in " + recs[0]["path"]])
         ev.write()
         return verdicts.finish()
+
+    rdir = os.path.join(vlib.ROOT, "replays", PID)   # replay files of earlier runs are stale
+    for fn in os.listdir(rdir) if os.path.isdir(rdir) else ():
+        if fn.endswith(".json"):
+            os.remove(os.path.join(rdir, fn))
 
     # 1. the specification on its own
     r = vlib.tlc("MC_Diag", wd=wd, timeout=900, tags=("STATS",))
@@ -181,7 +187,7 @@ def run(ctx):
     vlib.harness("c15", ["free", nfree, t_free, f_free])
     frecs, ffulls, _ = validate(wd, "random-variations", t_free, f_free, "free", ev, verdicts)
     samples.append(sample_of(frecs[0], ffulls[0]))
-    distinct = len({vlib.sha(x["files"]) for x in fulls} | {vlib.sha(x["files"]) for x in ffulls})
+    distinct = len({vlib.sha(x["files"]) for x in fulls + ffulls if x["base_ok"] and x["res"] != "ok"})
 
     # 4. negative controls (binding demonstrations)
     n_a = control_corrupt(wd, recs, bad)
@@ -189,10 +195,11 @@ def run(ctx):
     ev.set(negative_controls_rejected=n_a + n_b,
            negative_controls={"corrupted_observations_rejected": n_a, "stub_f1_multiline_cases_rejected": n_b})
 
-    ev.set(samples=samples, exhaustive=True, distinct_nontrivial=distinct,
-           rule="every applicable case of kind(13) x file(3) x position(5) x preceding shape(9), index-addressed in "
+    ev.set(samples=samples, exhaustive=True, exhaustive_scope="the cross product; the random variations are sampled",
+           distinct_nontrivial=distinct,
+           rule="every applicable case of kind(14) x file(3) x position(5) x preceding shape(9), index-addressed in "
                 "SyltDiag!Case, plus %d seeded random variations; a case is non-trivial when its base program compiles and "
-                "the planted program differs from it in exactly the one planted line (distinct planted projects counted)" % nfree,
+                "the planted program (base + exactly the one planted line) is rejected; distinct planted projects are counted" % nfree,
            known_findings_hit=verdicts.known_hits)
     ev.assume("TLC and SyltDiag are the reference: expected line = 1 + number of newline characters before the planted "
               "construct in the file's text; for duplicate names the textually later definition site is the offending one",
